@@ -304,6 +304,29 @@ let z_of_dec (s : string) : z =
   else (match n_of_dec s with N0 -> Z0 | Npos p -> Zpos p)
 
 let () =
+  (* pl_new <kind> <hex>: the public payload constructors (Model/MacCmd.v fixed_new / mcstatus_new) and the accessors of the view *)
+  register "pl_new" (function
+    | [kind; h] ->
+      let data = bytes_of_hex h in
+      let nth l k = (match List.nth_opt l k with Some x -> x | None -> N0) in
+      (match kind with
+       | "mcstatus" ->
+         (match mcstatus_new data with
+          | None -> "ERR"
+          | Some v ->
+            let items = mcstatus_items (nat_of_int 6) (match v with [] -> [] | _ :: r -> r) in
+            let its = List.map (fun it -> Printf.sprintf "%s:%s" (dec_of_n (nth it 0)) (dec_of_n (le_value (List.tl it)))) items in
+            String.trim (Printf.sprintf "OK %d %s %s %s" (List.length v) (dec_of_n (mcstatus_mask v)) (dec_of_n (mcstatus_total v)) (String.concat " " its)))
+       | "linkadr" ->
+         (match fixed_new (nat_of_int 4) data with
+          | None -> "ERR"
+          | Some v -> Printf.sprintf "OK %d %d %s %s" (int_of_n (nth v 0) lsr 4) (int_of_n (nth v 0) land 15) (hex_of_bytes [nth v 1; nth v 2]) (dec_of_n (nth v 3)))
+       | "devstatus" ->
+         (match fixed_new (nat_of_int 2) data with
+          | None -> "ERR"
+          | Some v -> let m = int_of_n (nth v 1) land 63 in Printf.sprintf "OK %s %d" (dec_of_n (nth v 0)) (if m >= 32 then m - 64 else m))
+       | _ -> "BADARGS")
+    | _ -> "BADARGS");
   register "mc_read" (function
     | [set; h] ->
       let data = bytes_of_hex h in
@@ -514,6 +537,7 @@ let run_mac_history (line : string) : string =
     end else m0 in
   let m = ref m0 in
   let out = ref [] in
+  let queue : (n * n list) list ref = ref [] in
   (try
     List.iter (fun op ->
       let a = List.filter (fun s -> s <> "") (String.split_on_char ' ' op) in
@@ -540,6 +564,20 @@ let run_mac_history (line : string) : string =
            out := Printf.sprintf "%s dl=%s buf=%s" (resp_str o.mo_resp) dl (hex_of_bytes o.mo_buf) :: !out
          | Val None -> out := Printf.sprintf "Err(NotJoined) dl=none buf=%s" (hex_of_bytes bs) :: !out
          | Panic -> raise (Stop "PANIC") | OutOfDraws -> raise (Stop "HANG"))
+      | (("rxk" | "rxck") as k) :: h :: snr :: mp :: _ ->
+        (* the application does not collect the downlink: it stays in the queue (MacHarness: depth 8) until `drain` *)
+        let bs = bytes_of_hex h in
+        if List.length bs >= 256 then out := (Printf.sprintf "BufferTooSmall queued=%d buf=-" (List.length !queue)) :: !out else
+        (match x_mac_handle_rx !m bs (zi snr) (ni mp) (k = "rxck") with
+         | Val (Some o) ->
+           m := o.mo_mac;
+           queue := dl_queue_push (nat_of_int 8) !queue o.mo_downlink;
+           out := Printf.sprintf "%s queued=%d buf=%s" (resp_str o.mo_resp) (List.length !queue) (hex_of_bytes o.mo_buf) :: !out
+         | Val None -> out := Printf.sprintf "Err(NotJoined) queued=%d buf=%s" (List.length !queue) (hex_of_bytes bs) :: !out
+         | Panic -> raise (Stop "PANIC") | OutOfDraws -> raise (Stop "HANG"))
+      | "drain" :: _ ->
+        out := (if !queue = [] then "none" else String.concat "," (List.map (fun (pt, d) -> Printf.sprintf "%d:%s" (int_of_n pt) (hex_of_bytes d)) !queue)) :: !out;
+        queue := []
       | "rx2c" :: _ -> let (m', resp) = x_mac_rx2_complete !m in m := m'; out := resp_str resp :: !out
       | "dr" :: v :: _ -> m := set_datarate !m (ni v); out := "ok" :: !out
       | "adr" :: v :: _ -> m := set_adr !m (bool_of_tok v); out := "ok" :: !out
